@@ -14,6 +14,7 @@ complex64 data and for real inputs (sigpy's fft casts real input to complex64).
 import numpy as np
 
 from vf import lops
+from vf.monitors import STATE
 from vf.common import Plan, crandn, held, violated, inconclusive, rng_for, nrm, inner
 
 SPEC = {
@@ -106,13 +107,15 @@ def run_case(case):
                     x.reshape(-1)[int(rng.integers(x.size))] = 1
                 if y.size:
                     y.reshape(-1)[int(rng.integers(y.size))] = 1 if dt.kind != "c" else 1j
+            STATE.peak = 0.0
             Ax = A(x)
             AHy = AH(y)
+            gain = max(1.0, STATE.peak / max(min(nrm(x), nrm(y)), 1e-300))
             lhs = inner(Ax, y)
             rhs = inner(x, AHy)
             # + ||x|| ||y||: floor for operators whose true action is (near) zero, where
             # both sides are rounding noise of intermediate O(1) quantities
-            scale = nrm(Ax) * nrm(y) + nrm(x) * nrm(AHy) + nrm(x) * nrm(y)
+            scale = nrm(Ax) * nrm(y) + nrm(x) * nrm(AHy) + 1e-3 * gain * nrm(x) * nrm(y)
             err = abs(lhs - rhs)
             checks += 1
             rel = err / scale if scale > 0 else err
